@@ -267,6 +267,39 @@ Proof.
   now rewrite app_nil_r.
 Qed.
 
+(* ---- the DELETE handler ------------------------------------------------------------------------- *)
+Lemma cut_line_no_line_end d c : is_line_end c = true -> contains_char c (cut_line d) = false.
+Proof.
+  intros Hc. induction d as [|x r IH]; cbn [cut_line]; [reflexivity|].
+  destruct (is_line_end x) eqn:E; cbn [contains_char]; [reflexivity|].
+  rewrite IH, orb_false_r. destruct (Ascii.eqb_spec c x); [subst; congruence|reflexivity].
+Qed.
+
+Theorem delete_handler_propose json_quit st sid body e :
+  delete_handler json_quit st sid body = PPropose e <->
+  exists q, json_quit body = Some q /\ st_leader st = true /\ e = mkEntry EDelete 0 sid 0 (cut_line q) 0.
+Proof.
+  unfold delete_handler. destruct (json_quit body) as [q|].
+  - destruct (st_leader st); simpl.
+    + split; [intros H; inversion H; eauto|]. intros (q' & H & _ & ->). now inversion H.
+    + split; [discriminate|]. intros (_ & _ & H & _). discriminate.
+  - split; [discriminate|]. intros (q & H & _). discriminate.
+Qed.
+
+(* whatever JSON string a client sends as Quitmessage, the proposed entry carries no CR, LF or NUL *)
+Theorem delete_handler_no_line_end json_quit st sid body e :
+  delete_handler json_quit st sid body = PPropose e ->
+  forall c, is_line_end c = true -> contains_char c (e_data e) = false.
+Proof.
+  intros H c Hc. apply delete_handler_propose in H. destruct H as (q & _ & _ & ->). cbn [e_data].
+  now apply cut_line_no_line_end.
+Qed.
+
+(* nothing is proposed for an undecodable body or on a non-leader *)
+Theorem delete_handler_bad json_quit st sid body :
+  json_quit body = None -> delete_handler json_quit st sid body = PBadRequest.
+Proof. unfold delete_handler. now intros ->. Qed.
+
 (* ---- the handler -------------------------------------------------------------------------------- *)
 Section Handler.
 Variable json_decode : string -> option (string * N).
